@@ -284,7 +284,7 @@ func (f *sysFactory) DynamicClient() (dynamic.Interface, error) { return f.dyn, 
 
 // ---------- canonical events ----------
 
-func errKind(err error) string {
+func sysErrKind(err error) string {
 	if err == nil {
 		return ""
 	}
@@ -311,7 +311,7 @@ func canonEvent(e event.Event) []any {
 		}
 		return []any{"init", gs}
 	case event.ErrorType:
-		return []any{"error", errKind(e.ErrorEvent.Err)}
+		return []any{"error", sysErrKind(e.ErrorEvent.Err)}
 	case event.ActionGroupType:
 		return []any{"group", e.ActionGroupEvent.GroupName, e.ActionGroupEvent.Action.String(), e.ActionGroupEvent.Status.String()}
 	case event.ApplyType:
